@@ -1108,3 +1108,25 @@ def only_images(eng, d, rmap, n):
     i = SO._iq(eng)
     return SV(z3.ForAll([l], z3.Implies(z3.Select(dv.dom, l),
                                         z3.Exists([i], z3.And(i >= 0, i < zint(n), z3.Select(rv.val, i) == l)))), "bool")
+
+
+@spec
+def mapinv(eng, o):
+    """mapping and reverse mapping of a labelled model are mutually inverse, and the integer labels in use are exactly
+    0 .. next_label - 1 (C14; this is what convert_solution and the brute-force solvers rely on).  True for the
+    Matrix classes, which have no mapping."""
+    from . import solth as SO
+    if not (isinstance(o, PObj) and eng.db.is_subclass(o.cls, "BO")):
+        return True
+    mp = eng.store_of(eng.get_attr_raw(o, "_mapping"))
+    rm = eng.store_of(eng.get_attr_raw(o, "_reverse_mapping"))
+    nx = zint(eng.get_attr_raw(o, "_next_label"))
+    eng.nfresh += 1
+    l = z3.Const("lq!%d" % eng.nfresh, T.Label)
+    j = SO._iq(eng)
+    ml = z3.Select(mp.val, l)
+    rj = z3.Select(rm.val, j)
+    return SV(z3.And(
+        z3.ForAll([l], z3.Implies(z3.Select(mp.dom, l), z3.And(ml >= 0, ml < nx, z3.Select(rm.dom, ml), z3.Select(rm.val, ml) == l))),
+        z3.ForAll([j], z3.Implies(z3.Select(rm.dom, j), z3.And(j >= 0, j < nx, z3.Select(mp.dom, rj), z3.Select(mp.val, rj) == j))),
+        z3.ForAll([j], z3.Implies(z3.And(j >= 0, j < nx), z3.Select(rm.dom, j))), nx >= 0), "bool")
